@@ -214,9 +214,9 @@ class World:
                 _, b = T(e.name, "name")
                 if e.v is not None:
                     T("=")
-                    _, b = T(str(e.v))
+                    _, b = T(str(e.v), "int")
                 if e.tag is not None:
-                    _, b = T(e.tag)
+                    _, b = T(e.tag, "tag")
                 e.start, e.stop = a, b
             elif e.kind == "box":
                 a, _ = T("box")
